@@ -29,6 +29,8 @@
 #include "muggle/c/sync/ma_ring.h"
 #include "muggle/c/memory/ring_memory_pool.h"
 #include "muggle/c/time/flow_controller.h"
+#include "muggle/c/time/fast_flow_controller.h"
+#include "muggle/c/net/socket_evloop_pipe.h"
 
 /* ------------------------------------------------------------------ accounting */
 void *__real_malloc(size_t);
@@ -223,6 +225,9 @@ static muggle_event_signal_t g_evsig;      static int s_evsig;
 static muggle_event_loop_t *g_evloop;      static int s_evloop;
 static muggle_socket_evloop_handle_t g_sockh; static int s_sockh;
 static muggle_async_logger_t g_alog;       static int s_alog;
+static muggle_socket_evloop_pipe_t g_evpipe; static int s_evpipe;
+static muggle_socket_t g_sock = -1;         static int s_sock;
+static muggle_fast_flow_controller_t g_ffctl; static int s_ffctl;
 static int s_maring;
 static int g_maring_backend;
 
@@ -289,6 +294,7 @@ static void vh_reset(void)
 	s_chan = s_rbuf = s_dbuf = s_abq = s_mpool = s_sowr = s_tsp = s_rmp = s_pslot = s_bbuf = 0;
 	s_fctl = s_alist = s_heap = s_stack = s_llist = s_queue = s_avl = s_htab = s_trie = 0;
 	s_evsig = s_evloop = s_sockh = s_alog = s_maring = 0;
+	s_evpipe = s_sock = s_ffctl = 0; g_sock = -1;
 	g_evloop = NULL;
 	g_nmblk = 0;
 	close_ctx_fds();
@@ -769,6 +775,41 @@ static void vh_op(int argc, char **argv)
 		NEED_INITED(s_sockh);
 		ENTER(); muggle_socket_evloop_handle_destroy(&g_sockh); LEAVE(); s_sockh = S_DESTROYED;
 		sprintf(st, "%c%c", cell(g_sockh.ctx_queue), cell(g_sockh.mtx)); line("void", st); return;
+	}
+
+	if (IS("evpipe.init")) {
+		CAN_INIT(s_evpipe); memset(&g_evpipe, 0, sizeof(g_evpipe));
+		ENTER(); int r = muggle_socket_evloop_pipe_init(&g_evpipe); LEAVE();
+		s_evpipe = r == 0 ? S_OK : S_FAILED;
+		sprintf(st, "%c%c", fdcell(g_evpipe.ctx[0].base.fd), fdcell(g_evpipe.ctx[1].base.fd)); line(RB(r == 0), st); return;
+	}
+	if (IS("evpipe.destroy")) {
+		NEED_INITED(s_evpipe);
+		ENTER(); muggle_socket_evloop_pipe_destroy(&g_evpipe); LEAVE(); s_evpipe = S_DESTROYED;
+		sprintf(st, "%c%c", fdcell(g_evpipe.ctx[0].base.fd), fdcell(g_evpipe.ctx[1].base.fd)); line("void", st); return;
+	}
+	if (IS("sock.create")) {
+		CAN_INIT(s_sock);
+		ENTER(); g_sock = muggle_socket_create(AF_INET, SOCK_DGRAM, 0); LEAVE();
+		s_sock = g_sock != MUGGLE_INVALID_SOCKET ? S_OK : S_FAILED;
+		sprintf(st, "%c", fdcell(g_sock)); line(RB(g_sock != MUGGLE_INVALID_SOCKET), st); return;
+	}
+	if (IS("sock.close")) {
+		NEED_INITED(s_sock);
+		ENTER(); if (g_sock != MUGGLE_INVALID_SOCKET) muggle_socket_close(g_sock); LEAVE(); s_sock = S_DESTROYED;
+		g_sock = -1;
+		sprintf(st, "%c", fdcell(g_sock)); line("void", st); return;
+	}
+	if (IS("ffctl.init")) {
+		CAN_INIT(s_ffctl); memset(&g_ffctl, 0, sizeof(g_ffctl));
+		ENTER(); bool r = muggle_fast_flow_ctl_init(&g_ffctl, (int64_t)a1, (uint32_t)a2, 0, 1e9); LEAVE();
+		s_ffctl = r ? S_OK : S_FAILED;
+		sprintf(st, "%c", cell(g_ffctl.arr)); line(RB(r), st); return;
+	}
+	if (IS("ffctl.destroy")) {
+		NEED_INITED(s_ffctl);
+		ENTER(); muggle_fast_flow_ctl_destroy(&g_ffctl); LEAVE(); s_ffctl = S_DESTROYED;
+		sprintf(st, "%c", cell(g_ffctl.arr)); line("void", st); return;
 	}
 
 	/* ------------------------------------------------------------ log */
